@@ -71,6 +71,8 @@ type KnownFile struct {
 	Fixed    []string       `json:"fixed"`
 }
 
+var validatedSamples int
+
 var verifDir = "/verif"
 var repoDir = "/repo"
 
@@ -352,6 +354,20 @@ func cmdCheck(args []string) int {
 	}
 	if len(results) == 0 {
 		inconclusive = append(inconclusive, "no harness selected for tier "+*tier)
+	}
+
+	// translator validation: sampled clean paths replayed through the natively compiled harness
+	validatedSamples = 0
+	if !*noReplay {
+		var vsts []*symx.ExploreStats
+		var vhs []HarnessCfg
+		for _, r := range results {
+			vsts = append(vsts, r.st)
+			vhs = append(vhs, r.h)
+		}
+		v, problems := validateSamples(c, vhs, vsts, *tier)
+		validatedSamples = v
+		inconclusive = append(inconclusive, problems...)
 	}
 
 	// replay counterexamples natively
@@ -738,7 +754,9 @@ func writeEvidence(c *CheckCfg, tier string, seed int, sts []*symx.ExploreStats,
 	cov := map[string]any{
 		"states":                        max1(paths),
 		"transitions":                   max1(decisions),
-		"traces_validated_against_impl": violations,
+		"traces_validated_against_impl": validatedSamples + violations,
+		"sampled_paths_replayed_natively": validatedSamples,
+		"counterexamples_replayed_natively": violations,
 		"samples":                       samples,
 		"explanation":                   "states = feasible paths explored by symbolic execution of the real code (go/ssa) ; transitions = solver-decided choice points; every path's verification conditions are decided by the SMT solver",
 		"paths_completed":               completed,
